@@ -70,7 +70,9 @@ def run(tier):
                 f.write(text)
             for variant in ("file", "filecnt"):
                 c = rnd.choice([2, 5, 16, 64, 0])
-                cmds = ["wrap reset", "wrap guardfiles 1", "new 0 int", "new 1 int"]
+                # (the string side of a LARGE content works on a caller buffer: a defect of the library-managed buffer's growth would
+                # otherwise be the same on both sides)
+                cmds = ["wrap reset", "wrap guardfiles 1", "new 0 int", "new 1 int" if size < 60000 else "new 1 ext %d H 0xcc" % (size + 65536)]
                 if variant == "file":
                     # one case in five goes through the deprecated alias assemble_file()
                     cmds += ["%s 0 %s" % ("fileold" if fid % 5 == 0 else "file", path), "asm 1 %s" % common.hx(text)]
